@@ -368,6 +368,10 @@ class Runner:
                                                  op[3])
             elif kind == 'call':
                 res.update(self._call(op))
+            elif kind == 'session_nested':
+                # ['session_nested', SID, ns, updA1, updB, updA2, raises]
+                res['ret'] = self._session_nested(
+                    self.sid_of(op[1]), op[2], op[3], op[4], op[5], op[6])
             elif kind == 'is_connected':
                 res['ret'] = self.sio.manager.is_connected(
                     self.sid_of(op[1]), op[2])
@@ -575,6 +579,42 @@ class Runner:
             before = dict(s)
             s.update(updates)
             return before
+
+    def _session_nested(self, sid, ns, a1, b, a2, raises):
+        """An outer session() block inside which a complete inner block for
+        the same client and namespace runs (what two overlapping handlers
+        do); optionally the outer block is left through an exception."""
+        d = self.d
+
+        class Leave(Exception):
+            pass
+        if d.is_async:
+            async def blk():
+                try:
+                    async with self.sio.session(sid, namespace=ns) as sa:
+                        sa.update(a1)
+                        if b is not None:
+                            async with self.sio.session(
+                                    sid, namespace=ns) as sb:
+                                sb.update(b)
+                        sa.update(a2)
+                        if raises:
+                            raise Leave()
+                except Leave:
+                    pass
+            return d.run(blk())
+        try:
+            with self.sio.session(sid, namespace=ns) as sa:
+                sa.update(a1)
+                if b is not None:
+                    with self.sio.session(sid, namespace=ns) as sb:
+                        sb.update(b)
+                sa.update(a2)
+                if raises:
+                    raise Leave()
+        except Leave:
+            pass
+        return None
 
     def run(self, ops):
         out = []
